@@ -41,6 +41,11 @@ gen = '\n'.join(out)
 manual = {
 'MessageClient': '''    async fn poll_messages(&self, stream_id: &Identifier, topic_id: &Identifier, partition_id: Option<u32>, consumer: &Consumer,
         strategy: &PollingStrategy, count: u32, auto_commit: bool) -> Result<PolledMessages, IggyError> {
+        while self.pause.load(std::sync::atomic::Ordering::SeqCst) {
+            self.parked.store(true, std::sync::atomic::Ordering::SeqCst);
+            self.resume.notified().await;
+        }
+        self.parked.store(false, std::sync::atomic::Ordering::SeqCst);
         let r = self.inner.poll_messages(stream_id, topic_id, partition_id, consumer, strategy, count, auto_commit).await;
         let (res, p, offs, cur) = match &r {
             Ok(pm) => ("ok".to_string(), pm.partition_id, pm.messages.iter().map(|m| m.offset).collect::<Vec<_>>(), pm.current_offset),
@@ -61,7 +66,9 @@ manual = {
                 _ => v,
             }
         }).collect();
+        let _guard = InFlight::new(&self.inflight);
         let r = self.inner.send_messages(stream_id, topic_id, partitioning, messages).await;
+        drop(_guard);
         self.emit(json!({"ev":"wire_send","stream":stream_id.to_string(),"topic":topic_id.to_string(),
             "pkind":partitioning.kind.to_string(),
             "ppart": if partitioning.kind == PartitioningKind::PartitionId && partitioning.value.len() >= 4 { u32::from_le_bytes(partitioning.value[..4].try_into().unwrap()) } else { 0 },
@@ -71,7 +78,12 @@ manual = {
     }
 ''',
 'ConsumerOffsetClient': '''    async fn store_consumer_offset(&self, consumer: &Consumer, stream_id: &Identifier, topic_id: &Identifier, partition_id: Option<u32>, offset: u64) -> Result<(), IggyError> {
+        let mut _guard = InFlight::new(&self.inflight);
+        // if this future is dropped in mid-request (the consumer dropped while committing) the server may or may not have applied it
+        _guard.lost = Some((self.events.clone(), json!({"ev":"wire_store_lost","partition":partition_id.unwrap_or(0),"offset":offset,"by":self.tag,"inc":self.inc})));
         let r = self.inner.store_consumer_offset(consumer, stream_id, topic_id, partition_id, offset).await;
+        _guard.lost = None;
+        drop(_guard);
         self.emit(json!({"ev":"wire_store","stream":stream_id.to_string(),"topic":topic_id.to_string(),"partition":partition_id.unwrap_or(0),
             "consumer":consumer.id.to_string(),"group":consumer.kind == ConsumerKind::ConsumerGroup,"offset":offset,"res":crate::util::res_of(&r)}));
         r
@@ -102,10 +114,38 @@ pub struct RecClient {
     pub events: Arc<Mutex<Vec<Value>>>,
     pub polls_since_yield: Arc<AtomicU64>,
     pub tag: String,
+    /// pause gate: a poll that finds `pause` set parks BEFORE issuing its request (no request in flight, no client lock held),
+    /// says so in `parked`, and goes on when `pause` is cleared and `resume` notified - so that the harness can leave a consumer's
+    /// future suspended between the steps of a scenario without blocking the consumer's background tasks on the client's lock
+    pub pause: Arc<std::sync::atomic::AtomicBool>,
+    pub parked: Arc<std::sync::atomic::AtomicBool>,
+    pub resume: Arc<tokio::sync::Notify>,
+    /// recorded state-changing requests (send / store) that have been issued and not answered yet, over all recording clients
+    pub inflight: Arc<AtomicU64>,
     /// incarnation number of the consumer object this client belongs to (0: not a consumer)
     pub inc: u64,
     /// client-side encryption in use: the message numbers are read from the decrypted payload
     pub decrypt: Option<Arc<iggy::utils::crypto::EncryptorKind>>,
+}
+
+/// counts a request as in flight until it is answered - or until its future is dropped (a consumer dropped in mid-request)
+struct InFlight {
+    counter: Arc<AtomicU64>,
+    lost: Option<(Arc<Mutex<Vec<Value>>>, Value)>,
+}
+impl InFlight {
+    fn new(c: &Arc<AtomicU64>) -> Self {
+        c.fetch_add(1, std::sync::atomic::Ordering::SeqCst);
+        InFlight { counter: c.clone(), lost: None }
+    }
+}
+impl Drop for InFlight {
+    fn drop(&mut self) {
+        if let Some((events, ev)) = self.lost.take() {
+            events.lock().unwrap().push(ev);
+        }
+        self.counter.fetch_sub(1, std::sync::atomic::Ordering::SeqCst);
+    }
 }
 
 impl RecClient {
